@@ -1016,6 +1016,95 @@ def check_stub_bb_grid(ctx, model):
                                   + ("" if ctx.thorough else "; quick tier: every second / third pair, all pairs in the thorough tier") + ")")
 
 
+# --------------------------------------------------------------------------
+# default precision (no jax_enable_x64): float32 / complex64 problems in a worker subprocess
+
+
+def _f32_worker(cases):
+    import subprocess
+    import sys
+
+    p = subprocess.run([sys.executable, str(common.VERIF / "harness" / "stepsize_f32_worker.py")],
+                       input=json.dumps({"repo": str(common.REPO), "cases": cases}), capture_output=True, text=True, timeout=900)
+    if p.returncode != 0:
+        raise common.Infra("stepsize_f32_worker failed: " + p.stderr[-800:])
+    return json.loads(p.stdout.strip().splitlines()[-1])["results"]
+
+
+def _f32_property(case, rec, ref):
+    """the property on one default-precision run: nothing raises (except where the x64 run raises too), every L is a finite
+    positive number, the iterate stays float32 / complex64 and L is not promoted to a 64-bit array"""
+    want_dt = "complex64" if case["complex"] else "float32"
+    if rec.get("construct_raised"):
+        return {"why": "default precision (no x64): constructing the solver on float32 data raised", "error": rec["construct_raised"]}
+    if rec.get("x0_dtype") != want_dt:
+        return {"why": "default precision: the solver does not keep the dtype of x0", "dtype": rec.get("x0_dtype"), "expected": want_dt}
+    for i, st in enumerate(rec["steps"]):
+        if st.get("raised"):
+            if i < len(ref) and ref[i]["raised"]:
+                return None
+            return {"step": i, "why": "default precision (no x64): step raised on a float32 problem", "error": st["raised"]}
+        if not (math.isfinite(st["L"]) and st["L"] > 0):
+            return {"step": i, "why": "default precision: returned L is not a finite positive number", "L": st["L"]}
+        if st["x_dtype"] != want_dt:
+            return {"step": i, "why": "default precision: the iterate changed dtype", "dtype": st["x_dtype"], "expected": want_dt}
+        if st["L_type"] in ("float64", "complex128", "complex64"):
+            return {"step": i, "why": "default precision: L is not a real 32-bit value / Python float", "L_type": st["L_type"]}
+    return None
+
+
+def oracle_f32(case):
+    c = {k: v for k, v in case.items() if k not in ("at_step", "what")}
+    return _f32_property(c, _f32_worker([c])[0], G.run_real(c))
+
+
+def check_default_precision(ctx, n):
+    """the library's DEFAULT precision mode (worker subprocess without jax_enable_x64): crafted boundary cases (exact zeros of the
+    inner products are exact at float32 too: dyadic data) and random problems at float32 / complex64 — no raise, L finite positive,
+    dtypes stay 32-bit — and L against the x64 run at a float32 tolerance until the first float32-near-tie"""
+    rng = ctx.rng
+    cases = [c for c in G.crafted_cases() if c.get("flavour") in ("orthogonal", "stationary", "negative", "fallback-then-usable", "abb-orthogonal-after-memory", "complex-orthogonal", "tie")
+             or (c.get("flavour") == "budget" and c["policy"]["maxiter"] in (1, 3))]
+    for i in range(n):
+        pol = G.gen_policy(rng, ["bb", "abb", "ls", "rls", "base"][i % 5])
+        p = G.gen_problem(rng, ["diag-pos", "dense-psd", "diag-indef", "complex-herm", "complex-rv", "zero-curv"][i % 6])
+        cases.append({**p, "policy": pol, "accel": bool(rng.integers(0, 2)), "steps": int(rng.integers(3, 7))})
+    cases = [{**_light(c)} for c in cases]
+    results = _f32_worker(cases)
+    for case, rec in zip(cases, results):
+        ref = G.run_real(case)
+        kind = case["policy"]["kind"]
+        ctx.case({"what": "f32", "policy": kind, "accel": case["accel"], "flavour": case.get("flavour")}, "f32:" + _digest(case))
+        ctx.count(f"f32:{kind}")
+        bad = _f32_property(case, rec, ref)
+        if bad is not None:
+            ctx.violation({"kind": "failing-input", "case": {**case, "what": "f32"}, "failing": bad}, True, "stepsize.f32: property fails on the implementation")
+            continue
+        for i, (st, r) in enumerate(zip(rec["steps"], ref)):
+            if st.get("raised") or r["raised"]:
+                break
+            # float32-near ties of the x64 run end the comparison (a decision may legitimately differ at single precision)
+            near = any(abs(t["fz"] - t["fq"]) <= 1e-4 * (1.0 + abs(t["fz"]) + abs(t["fq"])) or math.isnan(t["fz"] - t["fq"]) for t in r["tests"])
+            tol = 2e-3
+            if kind in ("bb", "abb") and r.get("ips") is not None:
+                xx, xg, gg = r["ips"]
+                if not (xx > 1e-6 * (1.0 + float(r["x_before"] @ r["x_before"]))) or abs(xg) <= 1e-3 * math.sqrt(abs(xx * gg)) or not math.isfinite(xx * gg):
+                    near = True
+                else:
+                    tol = max(tol, 1e-5 * math.sqrt((1.0 + float(r["x_before"] @ r["x_before"])) / xx))
+                if kind == "abb" and r.get("mem_after", (None, None))[0] is not None and r["mem_after"][1]:
+                    if abs(r["mem_after"][0] / r["mem_after"][1] - case["policy"]["kappa"]) <= 1e-3:
+                        near = True
+            if near or tol > 0.1:
+                ctx.count("f32:comparison-ended-at-near-tie")
+                break
+            if not _rel(st["L"], r["L"], 1, tol) or not _vec_close(st["x"], r["x"], 1e-3):
+                ctx.disagree("stepsize.f32", {**case, "what": "f32", "at_step": i}, {"L": st["L"], "x": st["x"]}, {"L_x64": r["L"], "x_x64": r["x"].tolist()},
+                             oracle=oracle_f32, note="float32 run differs from the x64 run beyond single-precision tolerance")
+                break
+            ctx.count("f32:steps-compared")
+
+
 def _corpus():
     d = common.CORPUS_DIR / PROP
     out = []
@@ -1039,6 +1128,7 @@ def correspond(ctx, model):
     check_stub_bb_grid(ctx, model)
     check_blocks(ctx, ctx.n(12, 150))
     check_reuse(ctx, ctx.n(16, 150))
+    check_default_precision(ctx, ctx.n(12, 100))
     n = ctx.n(220, 1500)
     for _ in range(n):
         pol = G.gen_policy(ctx.rng)
@@ -1219,6 +1309,12 @@ def search(ctx, model, why):
 def replay(ctx, model, case):
     common.setup_scico()
     c = case.get("case", case)
+    if c.get("what") == "f32":
+        r = oracle_f32(c)
+        print("replay:", "property FAILS on implementation:" if r else "no failure at this input", r)
+        if r:
+            ctx.violation({"kind": "failing-input", "case": c, "failing": r}, True, "replay")
+        return
     if c.get("what") == "reuse":
         r = oracle_reuse(c)
         print("replay:", "property FAILS on implementation:" if r else "no failure at this input", r)
